@@ -11,6 +11,7 @@ Case format (tree):  [kind, [init0, init1], ops]      kind 0 = MutableDict, 1 = 
   cop   = [0, <dict op of specs/c38.py>] | [0, [8, k]] d.get(k)
           [1, <list op of specs/c38.py>] | [1, [14, rev]] l.sort(reverse=rev)
           [2, <set op of specs/c38.py>]  | [2, [13, x]] x in s
+  re-attach family (oracle only): [4 + kind, init, [cop..]]  load, pickle round trip, add() to a new session, mutate, flush
   composite family (oracle only, "model": False): [3, [x, y], ops]
           ops = [0, which, z] p.pt.x|y = z  [1, x, y] p.pt = Point(x, y)  [4] flush [5] commit [6] rollback [7] expire
                 [8] refresh [9] p = unpickled copy merged back
@@ -443,6 +444,12 @@ def gen_cases(rng, tier):
         if kind == 2:
             for c in conts:
                 cases.append({"in": [kind, [c, None], [[0, S0, [2, [3]]], [4], [5]]], "kind": "method-x-state"})
+    # unpickled object re-attached to a NEW session with session.add(), then mutated and flushed (oracle only)
+    for kind in (0, 1, 2):
+        conts = _conts(kind)
+        for name, mop in _mutators(kind):
+            if not name.startswith("-"):
+                cases.append({"in": [4 + kind, conts[2] if kind != 1 else conts[3], [mop]], "kind": "reattach", "model": False})
     nrand = 6000 if tier == "thorough" else 600
     for i in range(nrand):
         cases.append(_rand_case(rng, i % 3))
@@ -464,6 +471,8 @@ def nontrivial(c):
     kind, _init, ops = c["in"]
     if kind == 3:
         return any(o[0] in (0, 1) for o in ops) and any(o[0] in (4, 5) for o in ops)
+    if kind >= 4:
+        return True
     return any(o[0] == 0 for o in ops) and any(o[0] in (4, 5) for o in ops)
 
 
@@ -847,11 +856,60 @@ def _run_composite(case):
     return obs
 
 
+def _run_reattach(case):
+    """load in session A, pickle round trip, close A; session B: add(copy); copy.data.<method>; flush"""
+    import pickle
+
+    from sqlalchemy import inspect, text
+    from sqlalchemy.orm import Session
+
+    k4, init, ops = case["in"]
+    kind = k4 - 4
+    variant = zlib.crc32(json.dumps(case["in"]).encode()) & 1
+    cls = _ENV["classes"][(kind, variant)]
+    eng = _ENV["eng"]
+    with eng.begin() as conn:
+        conn.execute(text("delete from %s" % cls.__tablename__))
+    s0 = Session(eng)
+    s0.add(cls(id=0, data=_plain(init)))
+    s0.commit()
+    obj = s0.get(cls, 0)
+    obj.data  # loaded
+    copy = pickle.loads(pickle.dumps(obj))
+    s0.close()
+    sb = Session(eng, autoflush=False)
+    sb.add(copy)
+    obs = []
+    for cop in ops:
+        rc = 0
+        try:
+            _apply_cop(copy.data, cop)
+        except AssertionError:
+            raise
+        except Exception as e:
+            rc = EXN.get(type(e).__name__, 90)
+        mod = int(inspect(copy).modified)
+        sb.flush()
+        raw = sb.connection().execute(text("select data from %s where id = 0" % cls.__tablename__)).scalar()
+        if raw is None:
+            dbv = None
+        elif isinstance(raw, (bytes, memoryview)):
+            dbv = pickle.loads(bytes(raw))
+        else:
+            dbv = json.loads(raw)
+        obs.append([rc, _cont(copy.data), _cont(dbv), mod])
+    sb.rollback()
+    sb.close()
+    return obs
+
+
 def impl(case):
     if not _ENV:
         impl_setup()
     if case["in"][0] == 3:
         return _run_composite(case)
+    if case["in"][0] >= 4:
+        return _run_reattach(case)
     return _run_mutable(case)
 
 
@@ -884,6 +942,14 @@ def oracle(case, obs):
             if mem and not mod and mem != dbv:
                 return _fail("composite in memory is %s, the row holds %s, and the parent is not flagged modified"
                              % (mem, dbv), fail="unflagged", k=k)
+        return None
+    if kind >= 4:
+        for k, (op, o) in enumerate(zip(ops, obs)):
+            rc, mem, dbv, mod = o
+            if _pyval(mem) != _pyval(dbv):
+                return _fail("unpickled object added to a new session: after %s and flush the in-memory value is %r, the "
+                             "database holds %r (modified flag before the flush: %d)" % (op, _pyval(mem), _pyval(dbv), mod),
+                             fail="reattach", k=k)
         return None
     diag = _ENV.get("diag") or [{}] * len(obs)
     full = _ENV.get("full")
@@ -923,7 +989,7 @@ def match_finding(case, what):
         b = json.loads(what.split("##", 1)[1])
     except Exception:
         return None
-    if case["in"][0] == 3:
+    if case["in"][0] >= 3:
         return None
     if b.get("fail") == "flush" and b.get("skipped") == 1:
         # the UPDATE was skipped because the recorded original is a mutable object that was mutated after
